@@ -35,6 +35,29 @@ def gen_cases(rng, tier):
             ln = rng.randint(left - x0 + 1, len(row) - x0)
             cs, args = px_case(kind, mode, hq, False, color, has_mask, x0, ln, row, extra)
             cases.append((cs, args + [-777, g, left]))   # trailing tag: group id, target index (ignored by the runners)
+    # tiled, multi-row draws (pixmap wider than 8191, three rows): the target sits in the narrow last tile column;
+    # its neighbours' destination and mask bytes vary, and one member of the group is an untiled pixmap
+    for g in range(4 if tier == "quick" else 40):
+        mode = rng.choice([3, 3, 4, 11, 12, 14, 24, rng.randrange(29)])
+        has_mask = rng.random() < 0.8
+        color = rand_color(rng)
+        tgt = rand_premul(rng) + ((rng.choice([0, 255, 255, rng.randint(0, 255)]) if has_mask else 255),)
+        nb = lambda: rand_premul(rng) + ((rng.choice([0, 255, rng.randint(0, 255)]) if has_mask else 255),)
+        for v in range(4):
+            if v == 3:
+                left = rng.randint(0, 30)
+                row = [nb() for _ in range(left)] + [tgt] + [nb() for _ in range(rng.randint(0, 30))]
+                t = left
+                x0, ln = 0, len(row)
+            else:
+                w = rng.choice([8200, 8210, 8230])
+                t = rng.randint(8192, w - 1)
+                row = [(0, 0, 0, 0, rng.choice([0, 255]) if has_mask else 255)] * 8150 + [nb() for _ in range(w - 8150)]
+                row[t] = tgt
+                x0 = rng.choice([0, 8100, 8192])
+                ln = w - x0
+            cs, args = px_case(6, mode, False, False, color, has_mask, x0, ln, row, [])
+            cases.append((cs, args + [-777, 10**8 + g, t]))
     return cases
 
 
